@@ -12,7 +12,8 @@ CONSTANTS
   MaxRuns = 1
   AllowDecor = TRUE
   OnExcChoices = {TRUE}
-  PreForceChoices = {TRUE, FALSE}
+  PreForceChoices = {FALSE}
+  XfDecChoices = {TRUE, FALSE}
   StepOps = {"addCleanup", "upcall"}
   AllowMulti = TRUE
   Variant = "asRequired"
@@ -20,7 +21,7 @@ CONSTANTS
   GatherOf <- MCGatherOf
   CleanOf <- MCCleanOf
   FixtureSetUpFails <- MCFixtureSetUpFails
-  FixtureFailCount <- MCFixtureFailCount
+  FixtureFailKinds <- MCFixtureFailKinds
   FixtureCleanKind <- MCFixtureCleanKind
   FixtureGatherRaises <- MCFixtureGatherRaises
   FixtureDetails <- MCFixtureDetails
